@@ -317,8 +317,11 @@ func RunSessionHonest(rc *harness.RunCtx) (out harness.Outcome) {
 func runSessionHonest(rc *harness.RunCtx) harness.Outcome {
 	w := rc.Seed.Sub("workload").Rand()
 	n := 2 + w.IntN(5)
+	if w.IntN(6) == 0 {
+		n = 7 + w.IntN(12) // large quorums (7..18): per-peer loops, buffers and maps grow
+	}
 	ids := pickIDs(w, n)
-	two := w.IntN(3) == 0
+	two := w.IntN(3) == 0 && n <= 8
 	pr := newProtoRun(rc, ids, true)
 	for _, id := range ids {
 		pr.start(sessionScript(fmt.Sprintf("s1@%d", id), id, ids, "s1", sim.NewRand(rc.Seed.Sub(fmt.Sprintf("rand/%d/s1", id)))))
